@@ -287,7 +287,7 @@ impl Property for C17 {
             real: &["src/utils/cell.rs (both code paths: seed with and without destructor)"],
             stub: &["once_cell::sync::OnceCell (detsim model: concurrent initialisers block, failure resets and wakes waiters; real once_cell under the Miri engine)", "OS scheduler"],
             assumptions: &["the OnceCell model follows once_cell's documented contract (checked against the real crate by the fidelity tests)"],
-            runs: (40_000, 2_000_000),
+            runs: (350_000, 10_000_000),
         }
     }
     fn generate(&self, g: &mut SplitMix, k: &mut SplitMix, _tier: Tier) -> (Knobs, Value) {
